@@ -81,9 +81,10 @@ Proof. exact plusplus_lemma. Qed.
 (* ---- redundant parentheses at the value of a value block (if-expression branches): the
    parser's is_expression_start list, regenerated from the source, contains every token kind
    an expression can begin with (what primary() accepts and what unary() consumes as a prefix
-   operator) except `~`; in particular wrapping the value in `(` `)` keeps it the block's value *)
+   operator); so a value block yields its expression's value whatever the expression begins
+   with, in particular when it is wrapped in `(` `)` *)
 Theorem C15_expression_start_complete : forall k,
-  can_begin_expression k = true -> k <> TTilde -> expr_start_listed k = true.
+  can_begin_expression k = true -> expr_start_listed k = true.
 Proof. exact expr_start_complete_lemma. Qed.
 
 Theorem C15_parenthesised_value_stays_value :
@@ -91,12 +92,15 @@ Theorem C15_parenthesised_value_stays_value :
   /\ forall k, expr_start_listed k = true -> value_block_yields k = value_block_yields TLParen.
 Proof. exact paren_value_block_lemma. Qed.
 
-(* REFUTED for `~` (open finding KF-C15-3): `if c { ~x } else { y }` yields null, with redundant
-   parentheses `if c { (~x) } else { y }` it yields the value *)
-Theorem C15_tilde_value_block_refuted :
-  can_begin_expression TTilde = true /\ expr_start_listed TTilde = false
-  /\ value_block_yields TTilde = NullValue /\ value_block_yields TLParen = ValueOfExpression.
-Proof. exact tilde_not_listed_lemma. Qed.
+Theorem C15_value_block_any_start : forall k,
+  can_begin_expression k = true -> value_block_yields k = value_block_yields TLParen.
+Proof. exact value_block_any_start_lemma. Qed.
+
+(* regression on the current code for the defect repaired by 3fa327d: `~` is listed *)
+Example C15_tilde_value_block_regression :
+  can_begin_expression TTilde = true /\ expr_start_listed TTilde = true
+  /\ value_block_yields TTilde = ValueOfExpression /\ value_block_yields TLParen = ValueOfExpression.
+Proof. exact tilde_listed_lemma. Qed.
 
 (* ---- integer literals *)
 (* a digit-group underscore anywhere after the first digit (decimal) or after the radix prefix
